@@ -10,7 +10,7 @@ Usage: extract.py [--repo /repo] [--out /verif/lean/Chrono/Extracted] [--report 
 """
 import json, os, re, sys, argparse
 
-REPO = "/repo"
+REPO = os.environ.get("CHRONO_REPO", "/repo")  # CHRONO_REPO: development aid (isolated seeded runs); the registered checks use /repo
 OUT = os.path.join(os.path.dirname(os.path.dirname(os.path.abspath(__file__))), "lean", "Chrono", "Extracted")
 
 def read(rel):
